@@ -530,25 +530,27 @@ ANewMeasure1D(kind, R, s) ==
 \* sqrt(lambda) of the components of heap[i], recovered from the constructor step that created it
 SqOf(i) == LET st == CHOOSE h \in {hist[k] : k \in 1..Len(hist)} : h.id = i IN MkSeq(Len(st.a.sq), LAMBDA r : QS(st.a.sq[r]))
 
-\* limits: lim = an entry of LIMITS (shared by all components); lmode in {"scalar", "array"}: how they are passed
-ANewTrunc(cls, i, lim, lmode) ==
-    LET u == heap[i]
-        t == [cls |-> cls, u |-> u, sq |-> SqOf(i), lo |-> lim.lo, hi |-> lim.hi, loInf |-> lim.loInf, hiInf |-> lim.hiInf]
-    IN /\ IsMeasure(u) /\ NumD(u) = 1 /\ ~(lim.loInf /\ lim.hiInf /\ lmode = "none")
+\* limits: li = index into LIMITS; lmode "scalar": the same limits for every component, passed as Python scalars;
+\* lmode "array": component r gets LIMITS[li + r - 1] (cyclic), passed as [R, 1] arrays (per-component limits)
+LimOf(li, lmode, r) == IF lmode = "array" THEN LIMITS[((li + r - 2) % Len(LIMITS)) + 1] ELSE LIMITS[li]
+ANewTrunc(cls, i, li, lmode) ==
+    LET u == heap[i] R == NumR(u)
+        lims == MkSeq(R, LAMBDA r : LimOf(li, lmode, r))
+        t == [cls |-> cls, u |-> u, sq |-> SqOf(i), lims |-> lims]
+    IN /\ IsMeasure(u) /\ NumD(u) = 1
        /\ Emit(Append(heap, t),
-               Step("NewTrunc", [cls |-> cls, i |-> i, lo |-> lim.lo, hi |-> lim.hi, loInf |-> lim.loInf, hiInf |-> lim.hiInf,
-                                 lmode |-> lmode], NoObj, NextId, [cls |-> cls], 0, NoObj, NoObj))
+               Step("NewTrunc", [cls |-> cls, i |-> i, lims |-> lims, lmode |-> lmode], NoObj, NextId, [cls |-> cls], 0, NoObj, NoObj))
 
 \* standardised quantities of component r of a truncated object
 TrMu(t, r) == FDiv(t.u.nu[r][1], t.u.Lam[r][1][1])
 TrSigma(t, r) == FInv(t.sq[r])
-TrAlpha(t, r) == FMul(FSub(QS(t.lo), TrMu(t, r)), t.sq[r])
-TrBeta(t, r) == FMul(FSub(QS(t.hi), TrMu(t, r)), t.sq[r])
+TrAlpha(t, r) == FMul(FSub(QS(t.lims[r].lo), TrMu(t, r)), t.sq[r])
+TrBeta(t, r) == FMul(FSub(QS(t.lims[r].hi), TrMu(t, r)), t.sq[r])
 TrMass(t, r) == LnMass(t.u, r)                          \* ln of the untruncated mass of the base measure
 \* int_a^b x^k u_r(x) dx
-TrMoment(t, r, k) == TruncMomentVal(k, TrMass(t, r), TrMu(t, r), TrSigma(t, r), t.loInf, TrAlpha(t, r), t.hiInf, TrBeta(t, r))
+TrMoment(t, r, k) == TruncMomentVal(k, TrMass(t, r), TrMu(t, r), TrSigma(t, r), t.lims[r].loInf, TrAlpha(t, r), t.lims[r].hiInf, TrBeta(t, r))
 \* the same for the normalised base density (ln weight 0)
-TrMoment0(t, r, k) == TruncMomentVal(k, LNZero, TrMu(t, r), TrSigma(t, r), t.loInf, TrAlpha(t, r), t.hiInf, TrBeta(t, r))
+TrMoment0(t, r, k) == TruncMomentVal(k, LNZero, TrMu(t, r), TrSigma(t, r), t.lims[r].loInf, TrAlpha(t, r), t.lims[r].hiInf, TrBeta(t, r))
 
 \* integrate("1" | "x" | "x**2" | "x**k", k)
 \* Trunc:    int_a^b x^k u(x) dx                      (a Val)
@@ -574,8 +576,8 @@ QLe(a, b) == a.n * b.d <= b.n * a.d
 \* __call__ at exact points qX (menu 1-vectors): u(x) inside the interval, 0 outside; TruncPDF divides by the truncated mass
 ATruncCall(i, qX, elementwise) ==
     LET t == heap[i] R == NumR(t.u) N == Len(qX)
-        inside(k) == LET x == Q(qX[k].n[1], qX[k].d) IN (t.loInf \/ QLe(t.lo, x)) /\ (t.hiInf \/ QLe(x, t.hi))
-        cell(r, k) == [inside |-> inside(k), ln |-> IF t.cls = "Trunc" THEN EvalLn(t.u, r, QV(qX[k]))
+        inside(r, k) == LET x == Q(qX[k].n[1], qX[k].d) lm == t.lims[r] IN (lm.loInf \/ QLe(lm.lo, x)) /\ (lm.hiInf \/ QLe(x, lm.hi))
+        cell(r, k) == [inside |-> inside(r, k), ln |-> IF t.cls = "Trunc" THEN EvalLn(t.u, r, QV(qX[k]))
                                                      ELSE LNSub(EvalLn(t.u, r, QV(qX[k])), TrMass(t, r))]
     IN /\ IsTrunc(t) /\ (elementwise => N = R)
        /\ Emit(heap, Step("TruncCall", [i |-> i, x |-> qX, elementwise |-> elementwise], NoObj, 0, NoObj, 0, NoObj,
@@ -1039,9 +1041,9 @@ Inv_TruncAdditive ==
       \A r \in 1..NumR(t.u) :
         LET ln == TrMass(t, r) mu == TrMu(t, r) sg == TrSigma(t, r)
             cut == FQ(1, 3)         \* an arbitrary interior cut point (standardised)
-            whole == TruncMomentVal(k, ln, mu, sg, t.loInf, TrAlpha(t, r), t.hiInf, TrBeta(t, r))
-            left == TruncMomentVal(k, ln, mu, sg, t.loInf, TrAlpha(t, r), FALSE, cut)
-            right == TruncMomentVal(k, ln, mu, sg, FALSE, cut, t.hiInf, TrBeta(t, r))
+            whole == TruncMomentVal(k, ln, mu, sg, t.lims[r].loInf, TrAlpha(t, r), t.lims[r].hiInf, TrBeta(t, r))
+            left == TruncMomentVal(k, ln, mu, sg, t.lims[r].loInf, TrAlpha(t, r), FALSE, cut)
+            right == TruncMomentVal(k, ln, mu, sg, FALSE, cut, t.lims[r].hiInf, TrBeta(t, r))
             full == TruncMomentVal(k, ln, mu, sg, TRUE, 0, TRUE, 0)
         IN /\ ValEq(left \o right, whole)
            /\ ValEq(full, <<Term(RawMoment(k, mu, FMul(sg, sg)), ln, "one", 0)>>)
